@@ -121,9 +121,12 @@ def compile_ir(cmd, outdir, flavour='configured', extra=()):
 # subexpression / redundant load elimination, threading of branches over phi-of-constants (status variables, merged error
 # exits) and CFG clean-up (if-chains on one value become a switch, two-armed diamonds become selects).  Behaviour-preserving
 # rewrites of the source converge on the same shape; nothing is inlined except helpers that are new w.r.t. the reference tree.
+# a local array walked by an unrolled loop (`const void *lists[3] = {a, b, c}; for (i = 0; i < 3; i++) if (!lists[i]) ...`) is
+# indexed by constants afterwards: a second sroa promotes it
+_AFTER_UNROLL = 'sroa,' if os.environ.get('LECVERIF_SROA2', '1') != '0' else ''
 NORMALISE = ('function(sroa,mem2reg,instsimplify,early-cse,'
              # loops with a constant trip count of at most 6 (a walk over a two-entry table of function pointers, ...) are unrolled
-             'loop-simplify,loop-unroll<O2;full-unroll-max=6;no-partial;no-runtime;no-peeling;no-upperbound>,instsimplify,early-cse,'
+             'loop-simplify,loop-unroll<O2;full-unroll-max=6;no-partial;no-runtime;no-peeling;no-upperbound>,' + _AFTER_UNROLL + 'instsimplify,early-cse,'
              'jump-threading,simplifycfg,instsimplify,simplifycfg)')
 
 def _split_top(sx):
